@@ -284,3 +284,28 @@ Example C16_nonvacuous :
   end = true.
 Proof. split; [reflexivity|]. split; vm_compute; reflexivity. Qed.
 Print Assumptions C16_nonvacuous.
+
+(* ===================================================================== *)
+(* Consequences for the container layer: the theorems of C01 / C08, which are stated for the
+   adapter over ANY block function with D k (E k b) = b, instantiated with the bundled cipher.
+   Nothing is assumed about AES any more (Proofs/Capstone.v). *)
+From Bec2 Require Import Base.Reader Model.Bf3 Model.AesContainer Proofs.Bf3Proofs Proofs.Bf3TextProofs Proofs.Capstone.
+
+Theorem C16_bf3_binary_roundtrip_bundled : forall cs off k b check,
+  Forall wf_comp cs ->
+  to_binary (adapter_encrypt aes_E) (adapter_mac aes_E) cs off k = Ok b ->
+  from_binary (adapter_decrypt aes_D) (adapter_mac aes_E) (mkR b off) check k = Ok (map view cs).
+Proof. exact bf3_binary_bundled_aes. Qed.
+Print Assumptions C16_bf3_binary_roundtrip_bundled.
+
+Theorem C16_bf3_text_roundtrip_bundled : forall f k t check,
+  wf_file f -> write_file (adapter_encrypt aes_E) (adapter_mac aes_E) f k = Ok t ->
+  read_file (adapter_decrypt aes_D) (adapter_mac aes_E) t check k = Ok (file_view f).
+Proof. exact bf3_text_bundled_aes. Qed.
+Print Assumptions C16_bf3_text_roundtrip_bundled.
+
+Theorem C16_auth_container_inverse_bundled : forall k pt ct,
+  Model.AesContainer.wrap (fun k d => adapter_encrypt aes_E k None d) k pt = Ok ct ->
+  Model.AesContainer.unwrap (fun k d => adapter_decrypt aes_D k None d) k ct = Ok pt /\ (blen ct mod 16 = 0)%N.
+Proof. exact container_inverse_bundled_aes. Qed.
+Print Assumptions C16_auth_container_inverse_bundled.
